@@ -2513,7 +2513,8 @@ static int __read_rstack(struct uftrace_data *handle, struct uftrace_task_reader
 
 	case EXTERN:
 		task = last_task;
-		if (unlikely(task == NULL))
+		/* the last task of another handle (report --diff) is not ours */
+		if (unlikely(task == NULL || task->h != handle))
 			task = &handle->tasks[0];
 
 		task->rstack = get_extern_record(extn, &task->xstack);
